@@ -531,6 +531,32 @@ func runC06(c *Ctx) {
 		}
 		c.Pred("include", "include-scoping", main, res == "ok" && strings.Join(recs, "\n") == strings.Join(want, "\n"), res+" "+strings.Join(recs, " | "), strings.Join(want, " | "), true)
 	}
+	// 5b. include trees: a relative $INCLUDE names a file next to the file that contains the directive, at every depth
+	{
+		fs := fstest.MapFS{
+			"sub/a.db":        {Data: []byte("a TXT \"sub/a\"\n$INCLUDE b.db\n")},
+			"sub/b.db":        {Data: []byte("b TXT \"sub/b\"\n$INCLUDE c.db\n$INCLUDE deeper/d.db\n")},
+			"sub/c.db":        {Data: []byte("c TXT \"sub/c\"\n")},
+			"sub/deeper/d.db": {Data: []byte("d TXT \"sub/deeper/d\"\n$INCLUDE e.db\n")},
+			"sub/deeper/e.db": {Data: []byte("e TXT \"sub/deeper/e\"\n")},
+			// decoys: what a resolution against the wrong directory would find
+			"b.db":     {Data: []byte("b TXT \"root/b\"\n")},
+			"c.db":     {Data: []byte("c TXT \"root/c\"\n")},
+			"e.db":     {Data: []byte("e TXT \"root/e\"\n")},
+			"sub/e.db": {Data: []byte("e TXT \"sub/e\"\n")},
+			"d.db":     {Data: []byte("d TXT \"root/d\"\n")},
+		}
+		main := "$ORIGIN example.org.\n$TTL 60\n$INCLUDE sub/a.db\nz TXT \"main\"\n"
+		recs, res := parseZone(main, "", -1, fs)
+		var got []string
+		for _, s := range recs {
+			f := strings.Split(s, "\t")
+			got = append(got, f[len(f)-1])
+		}
+		want := []string{`"sub/a"`, `"sub/b"`, `"sub/c"`, `"sub/deeper/d"`, `"sub/deeper/e"`, `"main"`}
+		c.Pred("include", "include-tree-relative-paths", main, res == "ok" && strings.Join(got, " ") == strings.Join(want, " "),
+			res+" "+strings.Join(got, " "), strings.Join(want, " "), true)
+	}
 	// the lexer model against zlexer.Next, token by token
 	lexStream(c, c.Scale(3000, 60000))
 	// whole texts read at header level by the model (lexer, abstract tokens, header machine) and by the parser
